@@ -624,6 +624,21 @@ def «qsbr.urcu_qsbr_synchronize_rcu» : Stmt :=
   block [(.assign "_goto_gp_end" (.lit 0)), (.assign "_goto_out" (.lit 0)), (.pstore (.fieldAddr (.addrGlob "&wait") "state") (.cst "URCU_WAIT_WAITING" (0))), (.call (some "_t1") [] [] «qsbr.urcu_qsbr_read_ongoing»), (.assign "was_online" (.var "_t1")), (.ifte (.var "was_online") (.call none [] [] «qsbr.urcu_qsbr_thread_offline») (.prim none .mb [])), (.call (some "_t2") ["queue", "node"] [.addrGlob "gp_waiters", .addrGlob "&wait"] «urcu_wait_add»), (.ifte (.bin .ne (.var "_t2") (.lit 0)) (block [(.call none ["wait"] [.addrGlob "&wait"] «urcu_adaptative_busy_wait»), (.assign "_goto_gp_end" (.lit 1))]) (.skip)), (.ifte (.var "_goto_gp_end") (.skip) (block [(.call none ["node", "state"] [.addrGlob "&wait", .cst "URCU_WAIT_RUNNING" (2)] «urcu_wait_set_state»), (.prim none (.ext "mutex_lock") [.addrGlob "rcu_gp_lock"]), (.call none ["waiters", "queue"] [.addrGlob "&waiters", .addrGlob "gp_waiters"] «urcu_move_waiters»), (.prim none (.ext "mutex_lock") [.addrGlob "rcu_registry_lock"]), (.prim (some "_t3") (.ext "cds_list_empty") [.addrGlob "registry"]), (.ifte (.var "_t3") (.assign "_goto_out" (.lit 1)) (.skip)), (.ifte (.var "_goto_out") (.skip) (block [(.prim none .ustore [.fieldAddr (.addrGlob "urcu_qsbr_gp") "ctr", .bin .add (.pload (.fieldAddr (.addrGlob "urcu_qsbr_gp") "ctr")) (.cst "URCU_QSBR_GP_CTR" (2)), .cst "CMM_RELAXED" (0)]), (.prim none .barrier []), (.prim none .mb []), (.call none ["input_readers", "cur_snap_readers", "qsreaders", "group"] [.addrGlob "registry", .null, .addrGlob "&qsreaders", .addrGlob "&acquire_group"] «qsbr.wait_for_readers»), (.prim none (.ext "cds_list_splice") [.addrGlob "&qsreaders", .addrGlob "registry"])])), (.assign "_goto_out" (.lit 0)), (.prim none (.ext "mutex_unlock") [.addrGlob "rcu_registry_lock"]), (.prim none (.ext "mutex_unlock") [.addrGlob "rcu_gp_lock"]), (.call none ["waiters"] [.addrGlob "&waiters"] «urcu_wake_all_waiters»)])), (.assign "_goto_gp_end" (.lit 0)), (.ifte (.var "was_online") (.call none [] [] «qsbr.urcu_qsbr_thread_online») (.prim none .mb []))]
 def «qsbr.urcu_qsbr_synchronize_rcu.params» : List String := []
 
+/-- `urcu_poll_worker_cb` (src/urcu-poll-impl.h) -/
+def «poll.urcu_poll_worker_cb» : Stmt :=
+  block [(.prim none (.ext "mutex_lock") [.fieldAddr (.addrGlob "poll_worker_gp_state") "lock"]), (.assign "_t1" (.pload (.fieldAddr (.fieldAddr (.addrGlob "poll_worker_gp_state") "current_state") "grace_period_id"))), (.pstore (.fieldAddr (.fieldAddr (.addrGlob "poll_worker_gp_state") "current_state") "grace_period_id") (.bin .add (.var "_t1") (.lit 1))), (.ifte (.bin .ge (.bin .sub (.pload (.fieldAddr (.fieldAddr (.addrGlob "poll_worker_gp_state") "latest_target") "grace_period_id")) (.pload (.fieldAddr (.fieldAddr (.addrGlob "poll_worker_gp_state") "current_state") "grace_period_id"))) (.lit 0)) (.prim none (.ext "call_rcu") [.fieldAddr (.addrGlob "poll_worker_gp_state") "rcu_head", .addrGlob "urcu_poll_worker_cb"]) (block [(.assign "_t2" (.lit 0)), (.pstore (.fieldAddr (.addrGlob "poll_worker_gp_state") "active") (.var "_t2"))])), (.prim none (.ext "mutex_unlock") [.fieldAddr (.addrGlob "poll_worker_gp_state") "lock"])]
+def «poll.urcu_poll_worker_cb.params» : List String := ["head"]
+
+/-- `start_poll_synchronize_rcu` (src/urcu-poll-impl.h) -/
+def «poll.start_poll_synchronize_rcu» : Stmt :=
+  block [(.assign "was_active" (.lit 0)), (.prim none (.ext "mutex_lock") [.fieldAddr (.addrGlob "poll_worker_gp_state") "lock"]), (.assign "_t1" (.pload (.fieldAddr (.fieldAddr (.addrGlob "poll_worker_gp_state") "current_state") "grace_period_id"))), (.pstore (.fieldAddr (.addrGlob "&new_target_gp_state") "grace_period_id") (.var "_t1")), (.assign "was_active" (.pload (.fieldAddr (.addrGlob "poll_worker_gp_state") "active"))), (.ifte (.un .lnot (.var "was_active")) (block [(.assign "_t2" (.lit 1)), (.pstore (.fieldAddr (.addrGlob "poll_worker_gp_state") "active") (.var "_t2"))]) (block [(.assign "_t3" (.pload (.fieldAddr (.addrGlob "&new_target_gp_state") "grace_period_id"))), (.pstore (.fieldAddr (.addrGlob "&new_target_gp_state") "grace_period_id") (.bin .add (.var "_t3") (.lit 1)))])), (.assign "_t4" (.pload (.fieldAddr (.addrGlob "&new_target_gp_state") "grace_period_id"))), (.pstore (.fieldAddr (.fieldAddr (.addrGlob "poll_worker_gp_state") "latest_target") "grace_period_id") (.var "_t4")), (.ifte (.un .lnot (.var "was_active")) (.prim none (.ext "call_rcu") [.fieldAddr (.addrGlob "poll_worker_gp_state") "rcu_head", .addrGlob "urcu_poll_worker_cb"]) (.skip)), (.prim none (.ext "mutex_unlock") [.fieldAddr (.addrGlob "poll_worker_gp_state") "lock"]), (.ret (some (.addrGlob "&new_target_gp_state")))]
+def «poll.start_poll_synchronize_rcu.params» : List String := []
+
+/-- `poll_state_synchronize_rcu` (src/urcu-poll-impl.h) -/
+def «poll.poll_state_synchronize_rcu» : Stmt :=
+  block [(.assign "target_gp_reached" (.lit 0)), (.prim none (.ext "mutex_lock") [.fieldAddr (.addrGlob "poll_worker_gp_state") "lock"]), (.ifte (.bin .lt (.bin .sub (.pload (.fieldAddr (.var "target_gp_state") "grace_period_id")) (.pload (.fieldAddr (.fieldAddr (.addrGlob "poll_worker_gp_state") "current_state") "grace_period_id"))) (.lit 0)) (.assign "target_gp_reached" (.lit 1)) (.skip)), (.prim none (.ext "mutex_unlock") [.fieldAddr (.addrGlob "poll_worker_gp_state") "lock"]), (.ret (some (.var "target_gp_reached")))]
+def «poll.poll_state_synchronize_rcu.params» : List String := ["target_gp_state"]
+
 /-- `smp_mb_master` (src/urcu-bp.c) -/
 def «bp.smp_mb_master» : Stmt :=
   .ifte (.pload (.addrGlob "urcu_bp_has_sys_membarrier")) (block [(.prim (some "_t1") (.ext "membarrier") [.cst "MEMBARRIER_CMD_PRIVATE_EXPEDITED" (8), .lit 0]), (.ifte (.var "_t1") (block [(.prim (some "_t2") (.ext "errno") []), (.prim none (.ext "urcu_die") [.var "_t2"])]) (.skip))]) (.prim none .mb [])
@@ -646,5 +661,5 @@ def «bp.urcu_bp_synchronize_rcu.params» : List String := []
 
 /-- functions the translator could not express in the IR subset (listed, never defaulted) -/
 def untranslated : List String := []
-def translated : List String := ["urcu_memb_smp_mb_slave", "_urcu_memb_read_lock_update", "_urcu_memb_read_lock", "urcu_common_wake_up_gp", "_urcu_memb_read_unlock_update_and_wakeup", "_urcu_memb_read_unlock", "_urcu_memb_read_ongoing", "_urcu_mb_read_lock_update", "_urcu_mb_read_lock", "_urcu_mb_read_unlock_update_and_wakeup", "_urcu_mb_read_unlock", "_urcu_mb_read_ongoing", "urcu_bp_smp_mb_slave", "_urcu_bp_read_lock_update", "_urcu_bp_read_lock", "_urcu_bp_read_unlock", "_urcu_bp_read_ongoing", "_urcu_qsbr_read_lock", "_urcu_qsbr_read_unlock", "_urcu_qsbr_read_ongoing", "urcu_qsbr_wake_up_gp", "_urcu_qsbr_quiescent_state_update_and_wakeup", "_urcu_qsbr_quiescent_state", "_urcu_qsbr_thread_offline", "_urcu_qsbr_thread_online", "___cds_wfs_end", "_cds_wfs_push", "___cds_wfs_node_sync_next", "___cds_wfs_pop", "___cds_wfs_pop_all", "_cds_wfs_empty", "___cds_lfs_empty_head", "_cds_lfs_push", "___cds_lfs_pop", "___cds_lfs_pop_all", "_cds_lfs_empty", "___cds_wfcq_append", "_cds_wfcq_enqueue", "_cds_wfcq_empty", "___cds_wfcq_busy_wait", "___cds_wfcq_node_sync_next", "_cds_wfcq_node_init_atomic", "___cds_wfcq_dequeue_with_state", "___cds_wfcq_splice", "_cds_lfq_enqueue_rcu", "make_dummy", "enqueue_dummy", "rcu_free_dummy", "_cds_lfq_dequeue_rcu", "_cds_lfs_push_rcu", "_cds_lfs_pop_rcu", "_cds_wfq_enqueue", "urcu_ref_get_safe", "urcu_ref_put", "urcu_ref_get_unless_zero", "urcu_wait_add", "urcu_move_waiters", "urcu_wait_set_state", "_cds_wfs_node_init", "urcu_wait_node_init", "urcu_adaptative_wake_up", "urcu_adaptative_busy_wait", "call_rcu_wait", "call_rcu_wake_up", "call_rcu_completion_wait", "call_rcu_completion_wake_up", "wake_call_rcu_thread", "_cds_wfcq_node_init", "_call_rcu", "futex_wait", "futex_wake_up", "wake_worker_thread", "wake_up_defer", "wait_defer", "rcu_defer_barrier_queue", "_rcu_defer_barrier_thread", "rcu_defer_barrier_thread", "_defer_rcu", "_cds_wfs_first", "___cds_wfs_next", "_cds_wfs_next_blocking", "urcu_wake_all_waiters", "set_thread_cpu_affinity", "_cds_wfcq_init", "___cds_wfcq_splice_blocking", "___cds_wfcq_first", "___cds_wfcq_first_blocking", "___cds_wfcq_next", "___cds_wfcq_next_blocking", "call_rcu_thread", "call_rcu", "call_rcu_lock", "urcu_ref_set", "call_rcu_unlock", "rcu_barrier", "_rcu_barrier_complete", "free_completion", "workqueue_thread", "urcu_workqueue_queue_work", "urcu_workqueue_create_completion", "urcu_ref_get", "urcu_workqueue_queue_completion", "urcu_workqueue_wait_completion", "urcu_workqueue_destroy_completion", "urcu_workqueue_flush_queued_work", "urcu_workqueue_pause_worker", "urcu_workqueue_resume_worker", "_urcu_workqueue_wait_complete", "memb.smp_mb_master", "memb.wait_gp", "urcu_common_reader_state", "memb.wait_for_readers", "memb.synchronize_rcu", "mb.smp_mb_master", "mb.wait_gp", "mb.wait_for_readers", "mb.synchronize_rcu", "qsbr.wait_gp", "urcu_qsbr_reader_state", "qsbr.wait_for_readers", "qsbr.urcu_qsbr_read_ongoing", "qsbr.urcu_qsbr_thread_offline", "qsbr.urcu_qsbr_thread_online", "qsbr.urcu_qsbr_synchronize_rcu", "bp.smp_mb_master", "urcu_bp_reader_state", "bp.wait_for_readers", "bp.urcu_bp_synchronize_rcu"]
+def translated : List String := ["urcu_memb_smp_mb_slave", "_urcu_memb_read_lock_update", "_urcu_memb_read_lock", "urcu_common_wake_up_gp", "_urcu_memb_read_unlock_update_and_wakeup", "_urcu_memb_read_unlock", "_urcu_memb_read_ongoing", "_urcu_mb_read_lock_update", "_urcu_mb_read_lock", "_urcu_mb_read_unlock_update_and_wakeup", "_urcu_mb_read_unlock", "_urcu_mb_read_ongoing", "urcu_bp_smp_mb_slave", "_urcu_bp_read_lock_update", "_urcu_bp_read_lock", "_urcu_bp_read_unlock", "_urcu_bp_read_ongoing", "_urcu_qsbr_read_lock", "_urcu_qsbr_read_unlock", "_urcu_qsbr_read_ongoing", "urcu_qsbr_wake_up_gp", "_urcu_qsbr_quiescent_state_update_and_wakeup", "_urcu_qsbr_quiescent_state", "_urcu_qsbr_thread_offline", "_urcu_qsbr_thread_online", "___cds_wfs_end", "_cds_wfs_push", "___cds_wfs_node_sync_next", "___cds_wfs_pop", "___cds_wfs_pop_all", "_cds_wfs_empty", "___cds_lfs_empty_head", "_cds_lfs_push", "___cds_lfs_pop", "___cds_lfs_pop_all", "_cds_lfs_empty", "___cds_wfcq_append", "_cds_wfcq_enqueue", "_cds_wfcq_empty", "___cds_wfcq_busy_wait", "___cds_wfcq_node_sync_next", "_cds_wfcq_node_init_atomic", "___cds_wfcq_dequeue_with_state", "___cds_wfcq_splice", "_cds_lfq_enqueue_rcu", "make_dummy", "enqueue_dummy", "rcu_free_dummy", "_cds_lfq_dequeue_rcu", "_cds_lfs_push_rcu", "_cds_lfs_pop_rcu", "_cds_wfq_enqueue", "urcu_ref_get_safe", "urcu_ref_put", "urcu_ref_get_unless_zero", "urcu_wait_add", "urcu_move_waiters", "urcu_wait_set_state", "_cds_wfs_node_init", "urcu_wait_node_init", "urcu_adaptative_wake_up", "urcu_adaptative_busy_wait", "call_rcu_wait", "call_rcu_wake_up", "call_rcu_completion_wait", "call_rcu_completion_wake_up", "wake_call_rcu_thread", "_cds_wfcq_node_init", "_call_rcu", "futex_wait", "futex_wake_up", "wake_worker_thread", "wake_up_defer", "wait_defer", "rcu_defer_barrier_queue", "_rcu_defer_barrier_thread", "rcu_defer_barrier_thread", "_defer_rcu", "_cds_wfs_first", "___cds_wfs_next", "_cds_wfs_next_blocking", "urcu_wake_all_waiters", "set_thread_cpu_affinity", "_cds_wfcq_init", "___cds_wfcq_splice_blocking", "___cds_wfcq_first", "___cds_wfcq_first_blocking", "___cds_wfcq_next", "___cds_wfcq_next_blocking", "call_rcu_thread", "call_rcu", "call_rcu_lock", "urcu_ref_set", "call_rcu_unlock", "rcu_barrier", "_rcu_barrier_complete", "free_completion", "workqueue_thread", "urcu_workqueue_queue_work", "urcu_workqueue_create_completion", "urcu_ref_get", "urcu_workqueue_queue_completion", "urcu_workqueue_wait_completion", "urcu_workqueue_destroy_completion", "urcu_workqueue_flush_queued_work", "urcu_workqueue_pause_worker", "urcu_workqueue_resume_worker", "_urcu_workqueue_wait_complete", "memb.smp_mb_master", "memb.wait_gp", "urcu_common_reader_state", "memb.wait_for_readers", "memb.synchronize_rcu", "mb.smp_mb_master", "mb.wait_gp", "mb.wait_for_readers", "mb.synchronize_rcu", "qsbr.wait_gp", "urcu_qsbr_reader_state", "qsbr.wait_for_readers", "qsbr.urcu_qsbr_read_ongoing", "qsbr.urcu_qsbr_thread_offline", "qsbr.urcu_qsbr_thread_online", "qsbr.urcu_qsbr_synchronize_rcu", "poll.urcu_poll_worker_cb", "poll.start_poll_synchronize_rcu", "poll.poll_state_synchronize_rcu", "bp.smp_mb_master", "urcu_bp_reader_state", "bp.wait_for_readers", "bp.urcu_bp_synchronize_rcu"]
 end UrcuVerif.Gen.Src
